@@ -53,9 +53,9 @@ Section Extract.
   (* one round of the loop: set the item field's name, run its __set__ on the scratch, read the stored value back *)
   Definition step_spec (F : aval * aval * aval -> aval -> M (aval * aval * aval)) : Prop :=
     forall i c acc n sa h,
-      F (ATmp KList acc, self n, AObj sa) (APair (aint i) (AV c)) h =
+      F (self n, ATmp KList acc, AObj sa) (APair (aint i) (AV c)) h =
       match recf f h c with
-      | Ok (h1, c1) => Ok (h1, (ATmp KList (acc ++ [(([] : pystr), c1)]), self (elem_name nm i),
+      | Ok (h1, c1) => Ok (h1, (self (elem_name nm i), ATmp KList (acc ++ [(([] : pystr), c1)]),
                                 AObj (alist_set sa (elem_name nm i) (AV c1))))
       | Raise e => Raise e
       end.
@@ -64,10 +64,10 @@ Section Extract.
     forall kids i acc n sa h,
       match map_kidsR (recf f) h (unlabel kids) with
       | Ok (h1, ks) => exists n' sa',
-          a_fold F (enum_thunks (map (fun p : pystr * child => mret (AV (snd p))) kids) i) (ATmp KList acc, self n, AObj sa) h =
-          Ok (h1, (ATmp KList (acc ++ ks), self n', AObj sa'))
+          a_fold F (enum_thunks (map (fun p : pystr * child => mret (AV (snd p))) kids) i) (self n, ATmp KList acc, AObj sa) h =
+          Ok (h1, (self n', ATmp KList (acc ++ ks), AObj sa'))
       | Raise e =>
-          a_fold F (enum_thunks (map (fun p : pystr * child => mret (AV (snd p))) kids) i) (ATmp KList acc, self n, AObj sa) h = Raise e
+          a_fold F (enum_thunks (map (fun p : pystr * child => mret (AV (snd p))) kids) i) (self n, ATmp KList acc, AObj sa) h = Raise e
       end.
   Proof.
     intro SP. induction kids as [|[k c] t IH]; intros i acc n sa h.
@@ -100,7 +100,7 @@ Section Extract.
       [| pose proof (extract_fold F SP (o_kids o) 0%Z [] nm [] h) as X;
          destruct (map_kidsR (recf f) h (unlabel (o_kids o))) as [[h1 ks]|e];
          [ destruct X as [n' [sa' X]];
-           replace (a_fold F T A H) with (Ok (h1, (ATmp KList ([] ++ ks), fself fimm custom nm (item_field f n') u ad, AObj sa')) : res (heap * (aval * aval * aval)))
+           replace (a_fold F T A H) with (Ok (h1, (fself fimm custom nm (item_field f n') u ad, ATmp KList ([] ++ ks), AObj sa')) : res (heap * (aval * aval * aval)))
              by (symmetry; exact X); reflexivity
          | replace (a_fold F T A H) with (Raise e : res (heap * (aval * aval * aval))) by (symmetry; exact X); reflexivity ] ]
     end.
